@@ -73,6 +73,60 @@ Proof.
   repeat split; apply Rmult_eq_reg_r with 4; try lra; field_simplify; nsatz.
 Qed.
 
+Definition lvec (M : M33 R) : V3 R :=
+  let '((r00,r01,r02),(r10,r11,r12),(r20,r21,r22)) := M in ((r21-r12)/2, (r02-r20)/2, (r10-r01)/2).
+Definition ctr (M : M33 R) : R := let '((r00,_,_),(_,r11,_),(_,_,r22)) := M in (r00 + r11 + r22 - 1)/2.
+
+(* closed form of the model for ANY matrix with a non-zero skew part *)
+Lemma angvec_general_closed_form (M : M33 R) : 0 < st2 M ->
+  let s := sqrt (st2 M) in let th := atan2 s (ctr M) in let '(l0,l1,l2) := lvec M in
+  angvec_general Rops M = (th, l0/s, l1/s, l2/s).
+Proof.
+  destruct M as [[[[r00 r01] r02] [[r10 r11] r12]] [[r20 r21] r22]]. unfold st2, lvec, ctr. intros Hst. cbv zeta.
+  set (c := (r00 + r11 + r22 - 1)/2) in *. set (l0 := (r21-r12)/2) in *. set (l1 := (r02-r20)/2) in *. set (l2 := (r10-r01)/2) in *.
+  set (s := sqrt (l0*l0 + l1*l1 + l2*l2)).
+  assert (Hs : 0 < s) by (apply sqrt_lt_R0; exact Hst).
+  assert (Hss : s*s = l0*l0 + l1*l1 + l2*l2) by (apply sqrt_sqrt; lra).
+  destruct (atan2_pos_range s c Hs) as [Hth0 Hth1].
+  set (th := atan2 s c) in *.
+  unfold angvec_general, skewpart, vex_py, norm_py, trc. sm_simpl.
+  replace ((r21 - r12) / 2 - (r12 - r21) / 2) with (2*l0) by (unfold l0; field).
+  replace ((r02 - r20) / 2 - (r20 - r02) / 2) with (2*l1) by (unfold l1; field).
+  replace ((r10 - r01) / 2 - (r01 - r10) / 2) with (2*l2) by (unfold l2; field).
+  replace (0 + 2*l0/2*(2*l0/2) + 2*l1/2*(2*l1/2) + 2*l2/2*(2*l2/2)) with (l0*l0 + l1*l1 + l2*l2) by field.
+  fold s. fold c. fold th.
+  replace (((r21 - r12) / 2 / s * th - (r12 - r21) / 2 / s * th) / 2) with (l0/s*th) by (unfold l0; field; lra).
+  replace (((r02 - r20) / 2 / s * th - (r20 - r02) / 2 / s * th) / 2) with (l1/s*th) by (unfold l1; field; lra).
+  replace (((r10 - r01) / 2 / s * th - (r01 - r10) / 2 / s * th) / 2) with (l2/s*th) by (unfold l2; field; lra).
+  assert (N : sqrt (0 + l0/s*th*(l0/s*th) + l1/s*th*(l1/s*th) + l2/s*th*(l2/s*th)) = th).
+  { replace (0 + l0/s*th*(l0/s*th) + l1/s*th*(l1/s*th) + l2/s*th*(l2/s*th)) with (th*th*((l0*l0+l1*l1+l2*l2)/(s*s))) by (field; lra).
+    rewrite <- Hss. replace (s*s/(s*s)) with 1 by (field; lra). rewrite Rmult_1_r. apply sqrt_square. lra. }
+  rewrite N. tuple_eq ltac:(first [reflexivity | field; lra]).
+Qed.
+
+(* extraction recovers the angle and the axis of Rodrigues' formula (0 < th < pi, unit axis) *)
+Theorem angvec_general_recovers (th : R) (u : V3 R) : 0 < th < PI -> normsq3 Rops u = 1 ->
+  let '(u0,u1,u2) := u in angvec_general Rops (rodrigues_ref th u) = (th, u0, u1, u2).
+Proof.
+  intros Hth Hu. destruct u as [[u0 u1] u2]. autounfold with smlin in Hu. sm_simpl.
+  assert (Hs : 0 < sin th) by (apply sin_gt_0; lra).
+  assert (Hcs : cos th * cos th + sin th * sin th = 1) by (pose proof (sin2_cos2 th) as Q; unfold Rsqr in Q; lra).
+  set (M := rodrigues_ref th (u0,u1,u2)).
+  assert (L : lvec M = (sin th * u0, sin th * u1, sin th * u2)) by (unfold M, rodrigues_ref, lvec; lin_simpl; tuple_eq ltac:(field)).
+  assert (C : ctr M = cos th).
+  { unfold M, rodrigues_ref, ctr. lin_simpl.
+    transitivity (cos th + (1 - cos th)*(1 - (u0*u0+u1*u1+u2*u2))); [field | rewrite Hu; ring]. }
+  assert (S2 : st2 M = sin th * sin th).
+  { assert (Q : st2 M = (let '(a,b,c) := lvec M in a*a + b*b + c*c)) by (unfold M, rodrigues_ref, st2, lvec; lin_simpl; reflexivity).
+    rewrite Q, L. cbv beta iota. transitivity (sin th * sin th * (u0*u0+u1*u1+u2*u2)); [ring | rewrite Hu; ring]. }
+  assert (P : 0 < st2 M) by (rewrite S2; nra).
+  pose proof (angvec_general_closed_form M P) as F. cbv zeta in F. rewrite L, C, S2 in F. rewrite sqrt_square in F by lra.
+  assert (Eth : atan2 (sin th) (cos th) = th).
+  { destruct (cs_unit_atan2 (cos th) (sin th) Hcs) as [E1 E2]. destruct (atan2_pos_range (sin th) (cos th) Hs) as [P1 P2].
+    apply cos_inj; [lra|lra|exact E1]. }
+  rewrite Eth in F. etransitivity; [exact F|]. tuple_eq ltac:(first [reflexivity | field; lra]).
+Qed.
+
 Theorem angvec_general_right_inverse (M : M33 R) : SO3 M -> 0 < st2 M ->
   let '(th, a0, a1, a2) := angvec_general Rops M in
   rodrigues_ref th (a0, a1, a2) = M /\ 0 < th < PI /\ a0*a0 + a1*a1 + a2*a2 = 1.
